@@ -23,7 +23,7 @@ RULE = ("a probe model M is observed (argument names and values, state map, RHS 
         "process-global caches are recorded; non-trivial = history contains >= 1 compile of a model related to M; distinct = "
         "distinct (M, history) hash")
 DECIDING = ['observations_compared', 'earlier_functions_rechecked', 'hist_steps', 'hist_compiles', 'hist_no_clear_compiles',
-            'hist_exceptions', 'hist_same_opname', 'hist_same_objects', 'shared_subcircuit_cases', 'hist_shared_update_var', 'input_history_cases']
+            'hist_exceptions', 'hist_same_opname', 'hist_same_objects', 'shared_subcircuit_cases', 'hist_shared_update_var', 'input_history_cases', 'revectorize_cases']
 ASSUMPTIONS = ['the probe model is observed through fresh template objects built from its spec (the state carry-over of a '
                'template object is documented statefulness, DESIGN 4a)']
 CASE_TIMEOUT = 300
@@ -44,6 +44,8 @@ def plan(tier, seed):
     # simulations with extrinsic inputs after earlier simulations with similar inputs (same variable, same shape, same first and
     # last samples, more than 1000 samples)
     cases += [{'family': 'input_history', 'cseed': rnd.randrange(1 << 30)} for _ in range(20 if tier == 'quick' else 400)]
+    # the same template object compiled / simulated in vectorized form (clear=True) and then in scalar form, and vice versa
+    cases += [{'family': 'revectorize', 'cseed': rnd.randrange(1 << 30)} for _ in range(24 if tier == 'quick' else 500)]
     return cases
 
 
@@ -438,7 +440,68 @@ def run_input_case(case, ctx):
     return res
 
 
+def run_revectorize_case(case, ctx):
+    """One template object is compiled (or simulated) with one vectorize setting and clear=True, then with the other setting;
+    the second function must be the one a pristine process obtains for that setting."""
+    from vp.props import c04
+    rnd = random.Random(case['cseed'])
+    mech = {}
+    for _ in range(200):
+        M, feats, risk = c04.make_spec({'cseed': rnd.randrange(1 << 30)}, ctx['excluded'])
+        if 'several_nodes_per_type' in feats and 'edges' in feats:
+            break
+    first_vec = rnd.random() < 0.7
+    via = rnd.choice(['get_run_func', 'run'])
+    res = {'features': ['revectorize', via, 'vec_first' if first_vec else 'scalar_first'], 'risk': [], 'sig': stable_hash([M, first_vec, via]),
+           'nontrivial': True}
+    try:
+        st, fresh = fresh_observation(M, case['cseed'])
+        if st != 'ok':
+            raise observe.Mismatch(f'loud: probe model fails in a pristine process: {fresh}')
+        tM, _ = build.build_python(M)
+        ref = RefModel(M)
+        try:
+            if via == 'get_run_func':
+                tM.get_run_func('first', step_size=1e-3, vectorize=first_vec, verbose=False, clear=True, float_precision='float64')
+            else:
+                tM.run(simulation_time=4e-3, step_size=1e-3, outputs={'o': '/'.join(ref.state_keys[0])}, vectorize=first_vec, verbose=False,
+                       clear=True, float_precision='float64')
+            from pyrates import clear as pr_clear
+            pr_clear(tM)           # public reset of the template (forgets the remembered simulation state)
+            obs = observe.compile_vf(M, vectorize=not first_vec, clear=True, template=tM, in_place=True)
+        except Exception as e:
+            import traceback
+            raise observe.Mismatch(f"loud: compiling the same template with vectorize={not first_vec} after vectorize={first_vec} raised "
+                                   f"{type(e).__name__}: {e} :: {traceback.format_exc()[-300:]}")
+        mech['hist_compiles'] = 1
+        mech['hist_steps'] = 1
+        mech['hist_same_objects'] = 1
+        # the same probe states observe_M uses (scalar build first, then vectorized build)
+        r2 = random.Random(case['cseed'])
+        n = len(np.asarray(obs['args'][1]))
+        ys_scalar = [np.array([r2.gauss(0, 1) for _ in range(n)]) for _ in range(3)]
+        ys_vec = [np.array([r2.gauss(0, 1) for _ in range(n)]) for _ in range(3)]
+        ys = ys_vec if not first_vec else ys_scalar
+        key = f'vf_{not first_vec}'
+        rhs_vals = [observe.call_vf(obs, obs['args'], y.copy()).tolist() for y in ys]       # (same order as observe_M)
+        after = {'names': list(obs['names']), 'smap': {k: (list(v) if isinstance(v, tuple) else int(v)) for k, v in obs['smap'].items()},
+                 'args': [np.asarray(a, dtype=float).tolist() for a in obs['args'] if not callable(a)], 'rhs': rhs_vals}
+        d = first_diff(fresh[key], after)
+        mech['observations_compared'] = 1
+        mech['revectorize_cases'] = 1
+        if d:
+            raise observe.Mismatch(f"get_run_func(vectorize={not first_vec}) on a template that was {via}-compiled with vectorize={first_vec} "
+                                   f"(clear=True, then clear(template)) differs from the pristine observation at {d}")
+        res.update(status='ok', symptom='', mech=mech, sample={'first_vectorize': first_vec, 'via': via, 'nodes': ref.node_order})
+    except observe.Mismatch as e:
+        s2 = str(e)
+        res.update(status='violation', symptom=('silent: ' if 'loud' not in s2 else '') + s2, mech=mech, spec={'M': M})
+    return res
+
+
 def run_case(case, ctx):
+    if case.get('family') == 'revectorize':
+        return run_revectorize_case(case, ctx)
     if case.get('family') == 'shared_subcircuits':
         return run_shared_case(case, ctx)
     if case.get('family') == 'input_history':
